@@ -1,0 +1,145 @@
+//go:build verif
+
+package sugardb
+
+import (
+	"fmt"
+	"net"
+	"sort"
+	"strconv"
+	"time"
+
+	"github.com/echovault/sugardb/internal/config"
+	"github.com/echovault/sugardb/internal/modules/set"
+	"github.com/echovault/sugardb/internal/modules/sorted_set"
+)
+
+// VerifServeConn runs the connection read loop of the TCP server on conn and
+// returns when the loop ends. It is what startTCP starts for an accepted connection.
+func (server *SugarDB) VerifServeConn(conn net.Conn) {
+	server.handleConnection(conn)
+}
+
+// VerifEntry is the canonical rendering of one key.
+type VerifEntry struct {
+	Kind     string            // string | int | float | list | hash | set | zset | nil | other:<go type>
+	Str      string            // string/int/float rendering
+	List     []string          // list elements in order
+	Hash     map[string]string // field -> kind-prefixed value ("s:..", "i:..", "f:..")
+	Set      []string          // sorted members
+	ZSet     map[string]float64
+	ExpireAt int64 // unix ms, 0 = none
+}
+
+// VerifState is a deep copy of everything the harness compares.
+type VerifState struct {
+	DBs       map[int]map[string]VerifEntry
+	MemUsed   int64
+	Volatile  map[int][]string
+	LRU       map[int][]string
+	LFU       map[int][]string
+	LRUTimes  map[int]map[string]int64
+	LFUCounts map[int]map[string]int
+}
+
+func verifScalar(v interface{}) (string, string) {
+	switch x := v.(type) {
+	case nil:
+		return "nil", ""
+	case string:
+		return "string", x
+	case int:
+		return "int", strconv.Itoa(x)
+	case int64:
+		return "int", strconv.FormatInt(x, 10)
+	case float64:
+		return "float", strconv.FormatFloat(x, 'g', -1, 64)
+	}
+	return fmt.Sprintf("other:%T", v), fmt.Sprintf("%v", v)
+}
+
+// VerifDump renders the complete keyspace and its bookkeeping. It takes the
+// store read lock and has no side effects (no lazy expiry, no cache touch).
+func (server *SugarDB) VerifDump() VerifState {
+	server.storeLock.RLock()
+	defer server.storeLock.RUnlock()
+	st := VerifState{
+		DBs:       map[int]map[string]VerifEntry{},
+		MemUsed:   server.memUsed,
+		Volatile:  map[int][]string{},
+		LRU:       map[int][]string{},
+		LFU:       map[int][]string{},
+		LRUTimes:  map[int]map[string]int64{},
+		LFUCounts: map[int]map[string]int{},
+	}
+	for db, data := range server.store {
+		out := make(map[string]VerifEntry, len(data))
+		for k, kd := range data {
+			e := VerifEntry{}
+			if kd.ExpireAt != (time.Time{}) {
+				e.ExpireAt = kd.ExpireAt.UnixMilli()
+			}
+			switch v := kd.Value.(type) {
+			case []string:
+				e.Kind = "list"
+				e.List = append([]string{}, v...)
+			case map[string]interface{}:
+				e.Kind = "hash"
+				e.Hash = make(map[string]string, len(v))
+				for f, fv := range v {
+					kind, s := verifScalar(fv)
+					e.Hash[f] = kind[:1] + ":" + s
+				}
+			case *set.Set:
+				e.Kind = "set"
+				if v != nil {
+					e.Set = append([]string{}, v.GetAll()...)
+					sort.Strings(e.Set)
+				}
+			case *sorted_set.SortedSet:
+				e.Kind = "zset"
+				e.ZSet = map[string]float64{}
+				if v != nil {
+					for _, m := range v.GetAll() {
+						e.ZSet[string(m.Value)] = float64(m.Score)
+					}
+				}
+			default:
+				e.Kind, e.Str = verifScalar(v)
+			}
+			out[k] = e
+		}
+		st.DBs[db] = out
+	}
+	server.keysWithExpiry.rwMutex.RLock()
+	for db, keys := range server.keysWithExpiry.keys {
+		st.Volatile[db] = append([]string{}, keys...)
+	}
+	server.keysWithExpiry.rwMutex.RUnlock()
+	if server.lruCache.cache != nil {
+		for db, c := range server.lruCache.cache {
+			c.Mutex.Lock()
+			st.LRU[db] = c.VerifKeys()
+			st.LRUTimes[db] = c.VerifEntries()
+			c.Mutex.Unlock()
+		}
+	}
+	if server.lfuCache.cache != nil {
+		for db, c := range server.lfuCache.cache {
+			c.Mutex.Lock()
+			st.LFU[db] = c.VerifKeys()
+			st.LFUCounts[db] = c.VerifEntries()
+			c.Mutex.Unlock()
+		}
+	}
+	return st
+}
+
+// VerifFlags reports the two busy-wait flags and the two in-progress flags.
+func (server *SugarDB) VerifFlags() (copying, mutating, snapshotting, rewriting bool) {
+	return server.stateCopyInProgress.Load(), server.stateMutationInProgress.Load(),
+		server.snapshotInProgress.Load(), server.rewriteAOFInProgress.Load()
+}
+
+// VerifConfig lets the harness (a separate module) name the configuration type.
+type VerifConfig = config.Config
